@@ -6,6 +6,7 @@ use crate::report::{CheckInfo, Partial, Tier, Violation};
 
 pub mod c10;
 pub mod c11;
+pub mod c12;
 pub mod c16;
 pub mod c19;
 pub mod srvchecks;
@@ -26,6 +27,7 @@ pub fn all() -> Vec<CheckDef> {
         srvchecks::def_c04(),
         c10::def(),
         c11::def(),
+        c12::def(),
         srvchecks::def_c15(),
         c16::def(),
         c19::def(),
